@@ -169,7 +169,19 @@ func ruleSingleConsumer(r *Run, p *Prog) {
 						inLoop = true
 					}
 				}
-				r.Ob("SINGLE", FnName(f)+"/go-poll", p.Pos(g.Pos()), !inLoop && f.Name() == "NewWriter", true, tern(!inLoop, "the consumer goroutine is started once per Writer, in its constructor", "the consumer goroutine is started in a loop"))
+				inCtor := f.Name() == "NewWriter"
+				if nw := p.Func("diode", "NewWriter"); nw != nil && !inCtor {
+					// `start()` called by NewWriter only is part of the constructor
+					if p.exclusiveHelpers(nw)[f] {
+						if skip, _ := pathExists(p.View(nw, "keep-start", func(h *ssa.Function) bool { return h == f }), nil, isReturn, func(x ssa.Instruction) bool {
+							cc := callCommon(x)
+							return cc != nil && staticCallee(cc) == f
+						}, nil); !skip {
+							inCtor = true
+						}
+					}
+				}
+				r.Ob("SINGLE", FnName(f)+"/go-poll", p.Pos(g.Pos()), !inLoop && inCtor, true, tern(!inLoop, "the consumer goroutine is started once per Writer, in its constructor", "the consumer goroutine is started in a loop"))
 			}
 		})
 	}
@@ -220,6 +232,14 @@ func ruleConsumerPrivate(r *Run, p *Prog) {
 				return
 			}
 			okc := f.Name() == "TryNext"
+			if !okc {
+				// a private step only TryNext calls (fastForward) is TryNext
+				for _, tn := range []string{"ManyToOne", "OneToOne"} {
+					if t := p.Method(diodesRel, tn, "TryNext"); t != nil && p.exclusiveHelpers(t)[f] {
+						okc = true
+					}
+				}
+			}
 			r.Ob("A14", FnName(f)+"/readIndex", p.Pos(fa.Pos()), okc, true, tern(okc, "readIndex touched only by the consumer (TryNext)", "readIndex is accessed from "+FnName(f)+", outside the single consumer: unsynchronised shared access"))
 		})
 	}
